@@ -145,6 +145,27 @@ def run_dp(case, stt):
             comp, comp2 = st_[name], getattr(st_, "stokes" + name)
             check(type(comp) is pb.IntensitySignal, "s[{!r}] is a {}", name, type(comp).__name__)
             check(bits_equal(arr(comp), arr(st_)[:, :, k]) and bits_equal(arr(comp2), arr(st_)[:, :, k]), "s[{!r}] is not component {}", name, k)
+    if case["dask"]:
+        # the SAME Dask array read in both bases, converted in opposite directions, everything evaluated in ONE graph: every result must
+        # still be its own conversion (task names must tell the conversions apart)
+        import dask
+
+        other = "circular" if spec["pol"] == "linear" else "linear"
+
+        def four(sig):
+            so = type(sig).like(sig, pol_type=other)
+            conv = (lambda q: q.to_circular()) if spec["pol"] == "linear" else (lambda q: q.to_linear())
+            conv_o = (lambda q: q.to_linear()) if other == "circular" else (lambda q: q.to_circular())
+            return [conv(sig), conv_o(so), sig.to_stokes(), so.to_stokes()]
+
+        with lib("conversions of one Dask array read in both bases"):
+            lazy = four(z)
+            outs = dask.compute(*[q.data for q in lazy], scheduler="synchronous")
+            refs = [np.asarray(q.data) for q in four(G.build(spec, data=data.copy()))]
+        for o, r, w in zip(outs, refs, ("conversion", "opposite conversion of the same array read in the other basis", "to_stokes",
+                                        "to_stokes of the same array read in the other basis")):
+            close(np.asarray(o).astype(np.complex128), r.astype(np.complex128), "computed in one graph: " + w, 4 * max(atol, ptol))
+        stt.label("joint_graph_both_bases")
     kdn = case["kind"]
     if kdn in ("pureL", "pureR") and power.size and power.max() > 0:
         sgn = 1 if kdn == "pureL" else -1
@@ -167,15 +188,38 @@ def run_dp(case, stt):
 def seq_case(draw):
     base = draw(dp_case())
     base["dask"] = False
-    ops = draw(st.lists(st.sampled_from(["to_stokes", "to_linear", "to_circular", "to_intensity", "chain"]), min_size=2, max_size=5))
-    return {"base": base, "ops": ops}
+    ops = draw(st.lists(st.sampled_from(["to_stokes", "to_linear", "to_circular", "to_intensity", "chain", "inplace_scale", "inplace_add", "set_pol"]),
+                        min_size=2, max_size=6))
+    return {"base": base, "ops": ops, "dask_too": draw(st.booleans())}
 
 
 def run_seq(case, stt):
     spec, data, X, Y = mk(case["base"])
-    z = G.build(spec, data=data.copy())
+    z = G.build(spec, data=data.copy(), chunks=(tuple(max(1, k // 2) for k in data.shape) if case.get("dask_too") else None))
+    stt.label("dask" if case.get("dask_too") else "numpy")
     first = {}
+    data = data.copy()
     for op in case["ops"]:
+        if op in ("inplace_scale", "inplace_add", "set_pol"):
+            # sanctioned changes of the object between conversions: later conversions must describe the CURRENT samples / basis
+            with lib(op):
+                if op == "inplace_scale":
+                    z *= 2
+                    data = data * 2
+                elif op == "inplace_add":
+                    np.add(z, 1, out=z)
+                    data = data + 1
+                else:
+                    z.pol_type = "circular" if z.pol_type == "linear" else "linear"
+            twin = G.build(dict(spec, pol=str(z.pol_type)), data=data.copy())
+            for name in ("to_stokes", "to_linear", "to_circular", "to_intensity"):
+                with lib(name + " after " + op):
+                    got, ref = arr(getattr(z, name)()), arr(getattr(twin, name)())
+                check(bits_equal(got, ref), "{} after {} differs from the same conversion of a fresh signal with the current samples and basis "
+                      "(sequence {})", name, op, case["ops"])
+            first = {}
+            stt.label("changed_between_conversions")
+            continue
         with lib(op):
             if op == "chain":
                 r = arr(z.to_linear().to_circular().to_stokes())
@@ -215,8 +259,8 @@ SUBS = [
         "scales}, amplitude scales 1e-10..1e8; non-trivial = a sample with all four of Re/Im X, Y non-zero and |X| != |Y|",
         quick=1500, thorough=30000, pieces_quick=4),
     Sub("long_signals", huge_case(), run_dp,
-        "the same conversion checks on signals of 65535..131073 samples (block boundaries at 2^16); non-trivial as above", quick=6, thorough=60,
-        pieces_quick=3, pieces_thorough=6),
+        "the same conversion checks on signals of 65535..131073 samples (block boundaries at 2^16); non-trivial as above", quick=8, thorough=60,
+        pieces_quick=2, pieces_thorough=6),
     Sub("call_sequences", seq_case(), run_seq,
         "2..5 conversions called on the same object; each repeated call must give bit-identical results and leave the object untouched; "
         "non-trivial = some conversion repeated", quick=400, thorough=8000),
